@@ -106,7 +106,7 @@ def main():
         budget = float(os.environ.get("VERIF_BUDGET_S", "800" if tier == "quick" else "7200"))
     except ValueError:
         budget = 800.0
-    reserve = 150.0 if tier == "quick" else 900.0     # native replays and evidence
+    reserve = 230.0 if tier == "quick" else 900.0     # native replays (first one compiles the crate natively) and evidence
     deadline = t0 + budget - reserve
     mod = importlib.import_module("props." + prop.lower())
     kfs = core.open_findings(prop)
@@ -231,8 +231,13 @@ def main():
                 continue
             replayed += 1
             for (_, cdesc, tname, tsrc) in pb[:3]:
-                out = core.native_replay(ws.hk, feature, None, tname, tsrc, features=features, genfile=j.genfile)
+                # checking profile first; the non-checking profile as well unless the run budget is nearly used up and the
+                # counterexample has already reproduced
+                out = core.native_replay(ws.hk, feature, None, tname, tsrc, features=features, genfile=j.genfile, profiles=("dev",))
                 rep = {p: v for p, v in out.items()}
+                if not (any(v[0] for v in rep.values()) and time.time() > deadline + 20):
+                    out2 = core.native_replay(ws.hk, feature, None, tname, tsrc, features=features, genfile=j.genfile, profiles=("release",))
+                    rep.update(out2)
                 reproduced = any(v[0] for v in rep.values())
                 if reproduced:
                     break
